@@ -474,3 +474,41 @@ def complete_nested(w, inner, sib):
     w.claim('pruning below the inner Merkle cell keeps the level-0 hash of the tree', t2.get_hash(0) == orig)
     k, r = call(M.check_proof, proof, orig)
     w.claim('the proof built by pruning below an inner Merkle cell is accepted against the original root hash', k == 'ok')
+
+
+@obligation('C11.shard_account_cell', 'C11', cases=[{'consumed': c, 'acc': a} for c in (0, 1, 2) for a in ('none', 'pruned')],
+            fuc=['pytoniq_core.tlb.account.ShardAccount.deserialize'],
+            descr='the callee contract check_account_proof relies on: ShardAccount.deserialize on a slice positioned at an account_descr '
+                  '(account:^Account last_trans_hash:bits256 last_trans_lt:uint64), with 0, 1 or 2 references ALREADY CONSUMED before it '
+                  '(a dictionary leaf whose augmentation owns references, e.g. a balance with extra currencies), returns cell such that '
+                  'cell[0] IS the ^Account reference and cell.bits are the descriptor bits; the account cell is an account_none cell or a '
+                  'pruned branch (as in a state proof)')
+def shard_account_cell(w, consumed, acc):
+    from pytoniq_core.boc.cell import Cell
+    from pytoniq_core.boc.tvm_bitarray import TvmBitarray
+    A = importlib.import_module('pytoniq_core.tlb.account')
+    if acc == 'none':
+        account = Cell(w.mk_bitarray(TvmBitarray, E.lit('0'), 1023), [])
+    else:
+        account, _ = abstract_child(w, 'ACCP', 'pruned', 1)
+    earlier = [abstract_child(w, f'E{i}', 'plain', 0)[0] for i in range(consumed)]
+    h = w.bits('lth', 256)
+    lt = w.int('lt', 0, (1 << 64) - 1)
+    body = h + E.uint(lt, 64)
+    from harness.common import mk_slice
+    s = mk_slice(w, body, earlier + [account], ref_offset=consumed)
+    k, r = call(A.ShardAccount.deserialize, s)
+    w.claim(f'parses ({r if k != "ok" else ""})', k == 'ok')
+    if k != 'ok':
+        return
+    w.claim('cell[0] is the ^Account reference, whatever was consumed before', len(r.cell.refs) >= 1 and r.cell.refs[0] is account)
+    w.claim('cell has exactly the descriptor\'s reference', len(r.cell.refs) == 1)
+    w.claim('cell bits are the descriptor bits', w.eq_seq(bits_of(w, r.cell), body))
+    w.claim('fields', w.And(r.last_trans_lt == lt, TC_bits(w, r.last_trans_hash, h)))
+    if acc == 'none':
+        w.claim('account_none parses to None', r.account is None)
+
+
+def TC_bits(w, got, seq):
+    from harness.tlbcheck import bits_eq
+    return bits_eq(w, got, seq)
